@@ -6,6 +6,9 @@ import ed
 import dg
 import ea
 import kbu_rules
+import kt
+import fr
+import ic
 
 
 class Ctx:
@@ -59,13 +62,60 @@ def fam_ci(ctx, o):
     kbu_rules.run_cache(ctx.facts, o)
 
 
+def fam_kt(ctx, o):
+    kt.run(ctx.facts, o)
+
+
+def fam_kv(ctx, o):
+    kt.run_kv(ctx.facts, o)
+
+
+def fam_fr(ctx, o):
+    return fr.run(ctx.facts, o)
+
+
+def fam_fr_enc(ctx, o):
+    _o, tab = ctx.run_once('fr', fam_fr)
+    fr.run_encode_framing(ctx.facts, o, tab)
+
+
+def fam_ic(ctx, o):
+    ic.run(ctx.facts, o)
+
+
 FAMILIES = {
+    'kt': fam_kt, 'kv': fam_kv, 'fr': fam_fr, 'fr_enc': fam_fr_enc, 'ic': fam_ic,
     'ed': fam_ed, 'dg': fam_dg, 'ea': fam_ea, 'kbu_bufs': fam_kbu_bufs, 'kbu_ticks': fam_kbu_ticks,
     'ci': fam_ci,
 }
 
 # property -> list of (family, [rule ids]) ; rule id prefix match on Inst.rule
 PROPS = {
+    'C02': {
+        'families': [('kt', ['KT']), ('fr_enc', ['FR-F5']), ('fr', ['FR-F2'])],
+        'floors': {'KT-K1': 33, 'KT-K2': 30, 'KT-K3': 30, 'KT-K4': 20, 'FR-F5': 10},
+        'title': 'Decode -> encode -> decode returns the same map',
+    },
+    'C03': {
+        'families': [('kv', ['KV']), ('kt', ['KT-K1', 'KT-K2', 'KT-K3']), ('dg', ['DG-D1', 'DG-D2', 'DG-D3'])],
+        'floors': {'KV': 15, 'KT-K1': 33, 'KT-K2': 30},
+        'title': 'Edits to a decoded map survive encode -> decode',
+    },
+    'C04': {
+        'families': [('fr_enc', ['FR-F5']), ('fr', ['FR-F2']), ('kt', ['KT-K3'])],
+        'floors': {'FR-F5': 10, 'FR-F2': 13, 'KT-K3': 30},
+        'title': 'The encoder only emits text that its own decoder accepts (framing clause)',
+    },
+    'C05': {
+        'families': [('fr', ['FR-F1', 'FR-F2', 'FR-F3', 'FR-F4', 'SW']), ('dg', ['DG-D4'])],
+        'floors': {'FR-F1': 11, 'FR-F2': 13, 'FR-F3': 6, 'FR-F4': 6, 'SW': 2, 'DG-D4': 18},
+        'title': 'File framing: which lines reach which section parser',
+    },
+    'C08': {
+        'families': [('ic', ['IC']), ('dg', ['DG-D4']), ('ed', ['ED', 'AL'])],
+        'floors': {'IC': 5, 'DG-D4': 18, 'ED': 60},
+        'title': 'The result depends on the bytes only, not on how they are delivered',
+    },
     'C06': {
         'families': [('ea', ['EA']), ('dg', ['DG-D3', 'DG-D1'])],
         'floors': {'EA': 8, 'DG-D3': 13},
